@@ -180,7 +180,8 @@ class Gen:
 
     def _rel(self, rel, ctx):
         # positive index from the innermost, or the equivalent negative index from the outermost
-        if self.rng.random() < 0.2:
+        # (not when the expression is going to be embedded under further function definitions: `neg_rel = False`)
+        if getattr(self, 'neg_rel', True) and self.rng.random() < 0.2:
             return -(len(ctx.frames) - rel)
         return rel
 
